@@ -4,6 +4,7 @@ import Driver.Hash
 import Driver.Streamer
 import Driver.Err
 import Driver.Retry
+import Driver.LockTime
 
 def dispatch (line : String) : String :=
   match (line.trimAscii.toString.splitOn " ").filter (· ≠ "") with
@@ -15,6 +16,7 @@ def dispatch (line : String) : String :=
   | "errtab" :: rest => Driver.Err.handleTab rest
   | "retryloop" :: rest => Driver.Retry.handleLoop rest
   | "backoff" :: rest => Driver.Retry.handleBackoff rest
+  | "stale" :: rest => Driver.LockTime.handle rest
   | _ => "bad-op"
 
 partial def loop (hin hout : IO.FS.Stream) : IO Unit := do
